@@ -83,7 +83,7 @@ Definition drop_empty (o : sobs) : sobs :=
 Definition run_matches (e : env) (s : inst) : bool :=
   match i_running s with
   | Some r =>
-    let sr := {| i_cfg := i_cfg s; i_disk := r; i_failed := i_failed s; i_running := None; i_pending := false |} in
+    let sr := {| i_cfg := i_cfg s; i_disk := r; i_failed := i_failed s; i_clean := i_clean s; i_running := None; i_pending := false |} in
     sobs_eqb (drop_empty (observe e sr false false false)) (drop_empty (observe e s false false false))
   | None => false
   end.
@@ -111,7 +111,7 @@ Definition env_of (c : hcase) : env :=
   {| nsh := h_nsh c; sh := lookup (h_shard c); UB := h_ub c; UH := h_uh c; UT := h_ut c; inline := h_inline c |}.
 
 Definition no_pending (s : inst) : inst :=
-  {| i_cfg := i_cfg s; i_disk := i_disk s; i_failed := i_failed s; i_running := i_running s; i_pending := false |}.
+  {| i_cfg := i_cfg s; i_disk := i_disk s; i_failed := i_failed s; i_clean := i_clean s; i_running := i_running s; i_pending := false |}.
 
 (* replay: true when every step's observation is the model's *)
 (* [chk_run] = false: no haproxy was attached (C05), the running state is not compared *)
